@@ -64,7 +64,9 @@ class PermutingExperimenter(experimenter.Experimenter):
             ' Permuting continuous parameters is not supported.'
         )
 
-      permutation_list = self._rng.permuted(parameter.feasible_values)
+      # NOTE: tolist() turns numpy scalars back into python values, which is
+      # what ParameterValue accepts (np.int64 is rejected).
+      permutation_list = self._rng.permuted(parameter.feasible_values).tolist()
       permutation_dict = {
           a: b for a, b in zip(parameter.feasible_values, permutation_list)
       }
